@@ -695,6 +695,11 @@ func runC07(c fileCase, col *stats.Collector) (bool, []string, error) {
 				fs.Blocks = append(fs.Blocks, ref.Block{Count: int64(n), Payload: payload})
 				i += n
 			}
+			for ; bi < len(w.PerBlock); bi++ {
+				if w.PerBlock[bi] == 0 {
+					fs.Blocks = append(fs.Blocks, ref.Block{})
+				}
+			}
 			mod(&fs)
 			out, _, _ := ref.WriteFile(fs)
 			return out
